@@ -2,7 +2,10 @@
 //! that the extracted Coq models recompute.  One subcommand per property family.
 mod c07;
 mod c08;
+mod c09;
 mod c11;
+mod c05;
+mod c18;
 mod util;
 
 fn main() {
@@ -18,6 +21,9 @@ fn main() {
         "encode" => c08::run(&args, false),
         "source" => c08::run(&args, true),
         "sender" => c11::run(&args),
+        "recv" => c09::run(&args),
+        "path" => c05::run(&args),
+        "multi" => c18::run(&args),
         other => {
             eprintln!("unknown subcommand {}", other);
             std::process::exit(2);
